@@ -155,6 +155,12 @@ func (e *kvElection) observeLeader(leaderID string, rev uint64) {
 	if e.isLeader.Load() {
 		return
 	}
+	// Notifications and reads reach a follower late and out of step with each other (the watch
+	// loop also runs the periodic check): an observation older than the one already recorded
+	// must not bring back a former leader. Revisions of the bucket only grow.
+	if rev < e.revision.Load() {
+		return
+	}
 	e.leaderID.Store(leaderID)
 	e.revision.Store(rev)
 }
